@@ -1,6 +1,7 @@
 """C18 representation accessors: pure projections (R-PROJ); more clauses (scale extension exact,
 type-level witnesses) are attached by the R-SCALE layer and the witness crate."""
-from rules import proj
+from rules import proj, scale
+from props import exact
 
 
 def run(ctx):
@@ -12,4 +13,7 @@ def run(ctx):
     F = ctx.facts('default', 'rel')
     n = proj.check(rep, F)
     rep.floor('projection API items', n, 22)
+    # extending the scale multiplies by the exact power of ten
+    nr = exact.rescale_primitives(rep, F, scale_only=False)
+    rep.floor('rescale primitives (extension exact)', nr, 4)
     rep.trust('num-bigint: BigInt::sign / magnitude / from_biguint are the exact sign-magnitude decomposition')
